@@ -452,6 +452,13 @@ CORPUS = [
     (['<!DOCTYPE r []><r/>'], [('RM', 0, 2), ('CE', 0, 'n'), ('IB', 0, 3, 1)]),                                       # element before the doctype
     (['<!DOCTYPE r [<!ENTITY e "v">]><r>&e;</r>'], [('RM', 0, 1)]),
     (['<r><a/><b/></r>'], [('IB', 1, 2, 2), ('RC', 1, 3, 3), ('AC', 1, 1), ('AC', 2, 1), ('IB', 1, 3, 2), ('RC', 1, 2, 3)]),
+    # a processing instruction whose target BEGINS with xml as the very first thing of a document without XML declaration
+    (['<r>t</r>'], [('CP', 0, 'xml-stylesheet', "href='a.css'"), ('IB', 0, 3, 1)]),
+    (['<r/>'], [('CP', 0, 'xmlx', 'd'), ('IB', 0, 2, 1), ('CC', 0, 'c'), ('IB', 0, 3, 2)]),
+    (['<!--c--><r/>'], [('CP', 0, 'xml-model', ''), ('IB', 0, 3, 1), ('CP', 0, 'XML-x', 'v'), ('IB', 0, 4, 3)]),
+    # PI data that begins with white space, a comment truncated in front of a hyphen
+    (['<r/>'], [('CP', 0, 'php', '  echo 1;'), ('AC', 1, 2), ('SD', 2, '\n\tkey="v"')]),
+    (['<r><!--chapter 1 - draft--><!--a-b--></r>'], [('DD', 2, 11, 6), ('DD', 3, 2, 100), ('DD', 3, 1, 1)]),
 ]
 
 def campaign(run):
